@@ -551,34 +551,42 @@ func pbGetQuerySerialize(in *MsgGetQuery) *pbx.GetQuery {
 		return nil
 	}
 
-	out := &pbx.GetQuery{
+	return &pbx.GetQuery{
 		What: in.What,
+		Desc: pbGetOptsSerialize(in.Desc),
+		Sub:  pbGetOptsSerialize(in.Sub),
+		Data: pbGetOptsSerialize(in.Data),
+	}
+}
+
+func pbGetOptsSerialize(in *MsgGetOpts) *pbx.GetOpts {
+	if in == nil {
+		return nil
 	}
 
-	if in.Desc != nil {
-		out.Desc = &pbx.GetOpts{
-			IfModifiedSince: timeToInt64(in.Desc.IfModifiedSince),
-			User:            in.Desc.User,
-			Topic:           in.Desc.Topic,
-			Limit:           int32(in.Desc.Limit),
-		}
+	return &pbx.GetOpts{
+		IfModifiedSince: timeToInt64(in.IfModifiedSince),
+		User:            in.User,
+		Topic:           in.Topic,
+		SinceId:         int32(in.SinceId),
+		BeforeId:        int32(in.BeforeId),
+		Limit:           int32(in.Limit),
 	}
-	if in.Sub != nil {
-		out.Sub = &pbx.GetOpts{
-			IfModifiedSince: timeToInt64(in.Sub.IfModifiedSince),
-			User:            in.Sub.User,
-			Topic:           in.Sub.Topic,
-			Limit:           int32(in.Sub.Limit),
-		}
+}
+
+func pbGetOptsDeserialize(in *pbx.GetOpts) *MsgGetOpts {
+	if in == nil {
+		return nil
 	}
-	if in.Data != nil {
-		out.Data = &pbx.GetOpts{
-			BeforeId: int32(in.Data.BeforeId),
-			SinceId:  int32(in.Data.SinceId),
-			Limit:    int32(in.Data.Limit),
-		}
+
+	return &MsgGetOpts{
+		IfModifiedSince: int64ToTime(in.GetIfModifiedSince()),
+		User:            in.GetUser(),
+		Topic:           in.GetTopic(),
+		SinceId:         int(in.GetSinceId()),
+		BeforeId:        int(in.GetBeforeId()),
+		Limit:           int(in.GetLimit()),
 	}
-	return out
 }
 
 func pbGetQueryDeserialize(in *pbx.GetQuery) *MsgGetQuery {
@@ -586,31 +594,12 @@ func pbGetQueryDeserialize(in *pbx.GetQuery) *MsgGetQuery {
 		return nil
 	}
 
-	msg := MsgGetQuery{
+	return &MsgGetQuery{
 		What: in.GetWhat(),
+		Desc: pbGetOptsDeserialize(in.GetDesc()),
+		Sub:  pbGetOptsDeserialize(in.GetSub()),
+		Data: pbGetOptsDeserialize(in.GetData()),
 	}
-
-	if desc := in.GetDesc(); desc != nil {
-		msg.Desc = &MsgGetOpts{
-			IfModifiedSince: int64ToTime(desc.GetIfModifiedSince()),
-			Limit:           int(desc.GetLimit()),
-		}
-	}
-	if sub := in.GetSub(); sub != nil {
-		msg.Sub = &MsgGetOpts{
-			IfModifiedSince: int64ToTime(sub.GetIfModifiedSince()),
-			Limit:           int(sub.GetLimit()),
-		}
-	}
-	if data := in.GetData(); data != nil {
-		msg.Data = &MsgGetOpts{
-			BeforeId: int(data.GetBeforeId()),
-			SinceId:  int(data.GetSinceId()),
-			Limit:    int(data.GetLimit()),
-		}
-	}
-
-	return &msg
 }
 
 func pbSetDescSerialize(in *MsgSetDesc) *pbx.SetDesc {
